@@ -361,9 +361,9 @@ class Interp:
             return "break", None
         if isinstance(s, (ast.While, ast.With, ast.Try)):
             if self.m.node_emits(s):
-                raise AnalysisError("emit: %s statement containing emission at codegen.py:%d is not modelled" % (type(s).__name__, s.lineno))
+                raise AnalysisError("emit: %s statement containing emission at codegen.py:%d is not modelled" % (type(s).__name__, getattr(s, "_srcline", s.lineno)))
             return None
-        raise AnalysisError("emit: statement %s at codegen.py:%d not modelled" % (type(s).__name__, s.lineno))
+        raise AnalysisError("emit: statement %s at codegen.py:%d not modelled" % (type(s).__name__, getattr(s, "_srcline", s.lineno)))
 
     def bind(self, t, v, env, stmt):
         if isinstance(t, ast.Name):
@@ -413,7 +413,7 @@ class Interp:
             asg = stack.pop()
             n += 1
             if n > 4096:
-                raise AnalysisError("emit: loop body at codegen.py:%d has too many alternatives" % s.lineno)
+                raise AnalysisError("emit: loop body at codegen.py:%d has too many alternatives" % getattr(s, "_srcline", s.lineno))
             sub = Interp(self.m, asg, self.depth)
             env2 = dict(env)
             for nm in _target_names(s.target):
@@ -653,7 +653,7 @@ class Interp:
                 if d and d in env:
                     return env[d]
             return Atom(self.key_of(e, env))
-        raise AnalysisError("emit: expression %s at codegen.py:%d not modelled" % (type(e).__name__, getattr(e, "lineno", 0)))
+        raise AnalysisError("emit: expression %s at codegen.py:%d not modelled" % (type(e).__name__, getattr(e, "_srcline", getattr(e, "lineno", 0))))
 
     def fmt(self, l, right, env):
         args = list(right.elts) if isinstance(right, ast.Tuple) else [right]
@@ -672,7 +672,7 @@ class Interp:
                     out.append(("lit", "%"))
                 elif m.group(1):
                     if i >= len(vals):
-                        raise AnalysisError("emit: format string has more holes than arguments at codegen.py:%d" % right.lineno)
+                        raise AnalysisError("emit: format string has more holes than arguments at codegen.py:%d" % getattr(right, "_srcline", right.lineno))
                     v, t = vals[i]
                     i += 1
                     out.extend(to_str(v, t, "r" if m.group(1) == "r" else "s").parts)
@@ -771,7 +771,7 @@ class Interp:
         # everything else must not emit
         for a in list(c.args) + [k.value for k in c.keywords]:
             if self.m.node_emits(a):
-                raise AnalysisError("emit: emission inside call arguments at codegen.py:%d" % c.lineno)
+                raise AnalysisError("emit: emission inside call arguments at codegen.py:%d" % getattr(c, "_srcline", c.lineno))
         return Atom(self.key_of(c, env))
 
     def printer_call(self, meth, c, env):
@@ -791,7 +791,7 @@ class Interp:
             kw = {k.arg: src(k.value) for k in c.keywords}
             self.events.append(("USERBLOCK", src(c.args[0]) if c.args else "", kw, c))
         elif meth in ("write", "close"):
-            raise AnalysisError("emit: raw printer.%s at codegen.py:%d" % (meth, c.lineno))
+            raise AnalysisError("emit: raw printer.%s at codegen.py:%d" % (meth, getattr(c, "_srcline", c.lineno)))
         return Const(None)
 
     def line(self, a, env, c):
